@@ -123,7 +123,7 @@ func stormPrograms(c *RunCtx, nq, nt int) {
 				cfg.WK, cfg.QK, cfg.Bad = WPlain, Pick(r, QPers, QDist), 1+r.Intn(4)
 			}
 			p.Explore(func(pl Plan) *Result { return epStorm(c, cfg) },
-				ExploreOpts{Base: 4, K: c.Q(4, 8), Funcs: anchoredOr(c, []string{"sendError", "initPoolNode", "goEventLoop", "NewWorker", "NewErrWorker", "NewResultWorker", "closeChannels", "Errs"}), Pairs: c.Q(20, 120), MaxCases: c.Q(150, 2500)})
+				ExploreOpts{Base: 4, Noise: c.Q(15, 80), K: c.Q(4, 8), Funcs: anchoredOr(c, []string{"sendError", "initPoolNode", "goEventLoop", "NewWorker", "NewErrWorker", "NewResultWorker", "closeChannels", "Errs"}), Pairs: c.Q(20, 120), MaxCases: c.Q(150, 2500)})
 		})
 	}
 }
